@@ -124,7 +124,8 @@ class Collector(object):
         f = {'sub': sub, 'kind': kind, 'sig': sig, 'msg': str(msg)[:600], 'case': to_jsonable(case)}
         if obs is not None:
             f['obs'] = to_jsonable(obs)
-        fid = self.attribute(f) if self.attribute is not None else None
+        # (failures raised by the harness itself - a type that cannot be built, a hang - carry no check-specific case to attribute)
+        fid = self.attribute(f) if self.attribute is not None and sub not in ('build', 'watchdog') else None
         f['finding'] = fid
         bucket = '%s|%s|%s|%s' % (sub, kind, sig, fid or '')
         f['bucket'] = bucket
@@ -261,7 +262,15 @@ def run_given(strategy, body, seed, max_examples, col=None):
     def inner(x):
         if col is not None and col.out_of_time():
             return
-        body(x)
+        try:
+            body(x)
+        except Exception as e:
+            from . import build
+            if not isinstance(e, build.BuildError) or col is None:
+                raise
+            # a legal type could not even be built through the public API
+            col.fail('build', 'raises', 'building the type raised %s: %s | %s' % (exc_sig(e.orig), str(e.orig)[:120], jdump(e.T)[:300]),
+                     {'build_only': True, 'T': e.T}, sig=exc_sig(e.orig))
 
     test = hseed(seed % (2 ** 63))(hyp_settings(max_examples)(given(strategy)(inner)))
     test()
@@ -311,6 +320,16 @@ def _main(mod, prop, args):
             print('replay: this record only names the last case that finished before a hang; it cannot be re-run')
             print('VIOLATION property=%s replay=%s' % (prop, args.replay))
             return 1
+        if isinstance(rec['case'], dict) and rec['case'].get('build_only'):
+            from . import build
+            try:
+                build.schema(from_jsonable(rec['case']['T']))
+                print('replay: case passes')
+                return 0
+            except build.BuildError as e:
+                print('replay: build | raises | %s' % e)
+                print('VIOLATION property=%s replay=%s' % (prop, args.replay))
+                return 1
         arm_watchdog(2 * HANG_LIMIT)
         try:
             fails = mod.replay(from_jsonable(rec['case']) if not getattr(mod, 'RAW_CASES', False) else rec['case'])
